@@ -486,6 +486,8 @@ def dict_get(eng, st, d, key, default):
     rec = st.objs[d.oid]
     if rec.get("lazy"):
         return [("ok", st, default)]
+    if isinstance(key, VNone) and not rec["kkind"].startswith("ref"):
+        return [("ok", st, default)]
     k = unwrap(key, rec["kkind"])
     res = []
     for ok, s in eng.branch(st, z3.Select(rec["dom"], k)):
